@@ -22,11 +22,11 @@ func runC01reach(a hx.Args) string {
 	b, i := a.Board(0)
 	n := a.Int(i)
 	for k := 0; k < n; k++ {
-		b.MakeMove(move.Move(a.U64(i + 1 + k)))
+		b.MakeMove(hx.U2M(a.U64(i + 1 + k)))
 	}
 	var l []uint64
 	for _, m := range posgen.Legal(b) {
-		l = append(l, uint64(m))
+		l = append(l, hx.M2U(m))
 	}
 	sort.Slice(l, func(i, j int) bool { return l[i] < l[j] }) // the property is about the set of moves
 	return (&hx.Nums{}).Int(len(l)).U(l...).String()
@@ -43,7 +43,7 @@ func genC01reach(rng *hx.Rng, n int, tier string, emit func(hx.Input)) {
 		if err != nil {
 			return
 		}
-		in := (&hx.Nums{}).BoardIn(rb).Int(1).U(uint64(m))
+		in := (&hx.Nums{}).BoardIn(rb).Int(1).U(hx.M2U(m))
 		emit(hx.Input{In: in.String(), Desc: "fen " + fen + " moves " + m.String(), Tags: []string{"reach", tag},
 			NonTrivial: true, Key: fen + m.String()})
 		cnt++
@@ -79,7 +79,7 @@ func genC01reach(rng *hx.Rng, n int, tier string, emit func(hx.Input)) {
 			}
 			in := (&hx.Nums{}).BoardIn(rb).Int(len(p.Moves))
 			for _, m := range p.Moves {
-				in.U(uint64(m))
+				in.U(hx.M2U(m))
 			}
 			emit(hx.Input{In: in.String(), Desc: p.Desc(), Tags: append(posgen.Tags(p.B), "reach"),
 				NonTrivial: true, Key: p.B.FEN()})
